@@ -7,7 +7,7 @@ export GOFLAGS=-mod=mod GOPROXY=off GOSUMDB=off GOTOOLCHAIN=local GOWORK=off
 alarms() {
   bin/cloverlint -property all -tier quick -repo "$1" -verif /verif -no-evidence 2>&1 | grep -E "^(VIOLATED|UNDECIDED|CHECKER)" | sed -E 's/^(VIOLATED|UNDECIDED) C[0-9]+: //' | sed -E 's/ at [^ ]+:[0-9]+:[0-9]+:.*//' | sort -u
 }
-for set in ${1:-a b c d}; do
+for set in ${1:-a b c d e}; do
   base=$(cat refactors/$set/BASE)
   W=/tmp/vref-$$-base
   git -C /repo worktree add --detach "$W" "$base" >/dev/null 2>&1
